@@ -2,7 +2,7 @@
    [concluded_before] memory of the conclusion selector (conclusion_selector.py:32, never reset).
    [run : qstate -> query -> rows * qstate] is one whole evaluation (iterator consumed to the end); evaluations of a
    history are threaded through the state.  Each [for v in variable._domain_] of a whole evaluation is a fresh
-   HashedIterable handle run to exhaustion ([iter_full], tied to DomainCache.exhaust by [iter_full_exhaust]). *)
+   HashedIterable handle run to exhaustion ([iter_full], tied to DomainCache.rexhaust by [iter_full_exhaust]). *)
 From Coq Require Import List ZArith Bool Arith.
 From Krrood Require Import Eql.DomainCacheSpec Eql.DomainCache Eql.ReevalSpec.
 Import ListNotations.
@@ -10,8 +10,10 @@ Open Scope Z_scope.
 
 Record qstate := { doms : list dstate; concl : list (list Z) }.
 
+(* a fresh handle of the current iterator run to exhaustion: the cached elements, then the new ones of the source, an id
+   already cached skipped *)
 Definition iter_full (d : dstate) : list Z * dstate :=
-  (cache d ++ src d, {| cache := fold_left ins (src d) (cache d); src := [] |}).
+  let c := fold_left ins (src d) (cache d) in (c, {| cache := c; src := [] |}).
 
 Definition enum (s : qstate) (x : nat) : list Z * qstate :=
   match nth_error (doms s) x with
